@@ -15,4 +15,7 @@ theorem C10_src_counter_reset_before_write : allBefore writeExample "set:written
 /-- `__exit__` closes what is still open -/
 theorem C10_src_exit_closes : (first fillerExit "close_shard").isSome = true := by decide +kernel
 
+/-- … but only shards that hold at least one example (`> 0` is tested before `close_shard`) -/
+theorem C10_src_exit_skips_empty : allBefore fillerExit "cmp:Gt" "close_shard" = true := by decide +kernel
+
 end Sedpack.Src
